@@ -32,7 +32,7 @@ def run_models(ctx):
                 {"cfg": cfg, "violated": r.violated, "trace": [lab.split(" line")[0] for lab, _ in r.error_trace]})
     # known finding at model level and negative controls (historical orders)
     for cfg, expect in (("known_packdel", "VisIsAbs"), ("neg_prune", "VisIsAbs"), ("neg_delorder", "VisIsAbs"),
-                        ("neg_stale", "CasSound")):
+                        ("neg_stale", "CasSound"), ("neg_shortcut", "ShortcutSound")):
         r = tlc.run("RefsFilesMC.tla", f"RefsFiles_{cfg}.cfg", workers=8, timeout=600)
         ctx.add_tlc(f"RefsFiles_{cfg} (expects {expect})", r, require_ok=False)
         if expect not in r.violated:
